@@ -224,14 +224,16 @@ class KeyText(Stream):
     """the key as it is written in the annotation (inline 'eb:' or a 'Tonality: eb' header): every letter x {natural, sharp, flat}
     x {major = upper case, minor = lower case}, a sample of diatonic figures read in that key against the textbook pitch classes"""
     name = "key_text"
-    checker = None
-    pair = "property oracle on ScoreFormatter(text).parse() (CurrentTonality.init, TonalityLine) vs textbook pitch classes in the written key"
-    quick, thorough = 700, 700
+    mods = ["Model.KeyText"]
+    checker = "check_key_text"
+    pair = ("CurrentTonality(text).key / .mode <-> KeyText.key_of_text; oracle: ScoreFormatter(text).parse() (CurrentTonality.init, TonalityLine) "
+            "vs textbook pitch classes in the written key")
+    quick, thorough = 1200, 1200
 
     def gen(self, rng, n):
         cases = figure_cases()
         for letter, base in LETTERS.items():
-            for acc, sh in (("", 0), ("#", 1), ("b", -1), ("-", -1)):
+            for acc, sh in (("", 0), ("#", 1), ("b", -1), ("-", -1), ("##", 2), ("bb", -2)):
                 for minor in (False, True):
                     mode = "minor" if minor else "major"
                     pool = [c for c in cases if c[0] == mode]
@@ -250,8 +252,32 @@ class KeyText(Stream):
                 text = f"Time Signature: 4/4\nm1 {case['key_text']}: {case['fig']}"
             sc = ScoreFormatter(text).parse()
             c = sc.chords[0]
-            return {"n": len(sc.chords), "pcs": [int(p) % 12 for p in c.chord_extension_pitches], "bass": int(c.bass_pitch) % 12}
+            from musiclang.analyze.score_formatter_elements import CurrentTonality
+            try:
+                ct = CurrentTonality(self.raw_text(case))
+                raw = [int(ct.key), ct.mode]
+            except Exception as e:
+                raw = None
+            return {"n": len(sc.chords), "pcs": [int(p) % 12 for p in c.chord_extension_pitches], "bass": int(c.bass_pitch) % 12, "raw": raw}
         return mlang.guarded(f)
+
+    @staticmethod
+    def raw_text(case):
+        # what CurrentTonality receives: the token with its colon (inline) or the header's value without it
+        return case["key_text"] + ("" if case["header"] else ":")
+
+    def term(self, case, r):
+        if mlang.is_exc(r):
+            raw = None
+            try:
+                from musiclang.analyze.score_formatter_elements import CurrentTonality
+                ct = CurrentTonality(self.raw_text(case)); raw = [int(ct.key), ct.mode]
+            except Exception:
+                pass
+        else:
+            raw = r["raw"]
+        exp = "None" if raw is None else f"(Some ({Z(raw[0])}, {B(raw[1] == 'minor')}))"
+        return T(S(self.raw_text(case)), exp)
 
     def spec(self, case, r):
         where = "header" if case["header"] else "inline"
